@@ -582,6 +582,283 @@ func topStmtBefore(rel, fn, a, b string) bool {
 	return na == 1 && nb == 1 && ia < ib
 }
 
+// ---------------------------------------------------------------------------------------------
+// the goroutine compactionError as a state machine (C09/C18, Model/CompErr.lean)
+
+func stmtText(n ast.Node) string {
+	var buf bytes.Buffer
+	printer.Fprint(&buf, token.NewFileSet(), n)
+	return strings.Join(strings.Fields(buf.String()), " ")
+}
+
+// selectCases returns the comm clauses of the single `select` that is the whole body of `for { select { … } }`.
+func forSelect(st ast.Stmt) *ast.SelectStmt {
+	fs, ok := st.(*ast.ForStmt)
+	if !ok || fs.Init != nil || fs.Cond != nil || fs.Post != nil || len(fs.Body.List) != 1 {
+		return nil
+	}
+	sel, _ := fs.Body.List[0].(*ast.SelectStmt)
+	return sel
+}
+
+// gotoTarget: the body is exactly `goto L` (returns L), empty (returns ""), anything else returns "?".
+func gotoTarget(body []ast.Stmt) string {
+	if len(body) == 0 {
+		return ""
+	}
+	if len(body) == 1 {
+		if br, ok := body[0].(*ast.BranchStmt); ok && br.Tok == token.GOTO && br.Label != nil {
+			return br.Label.Name
+		}
+	}
+	return "?"
+}
+
+// compErrFacts reads the transition structure of DB.compactionError off the AST: one fact per select case and
+// per switch case (names as the fields of CompErr.MCfg), and "shape": nothing but the recognised cases occurs.
+func compErrFacts() map[string]bool {
+	fd := findFunc("leveldb/db_compaction.go", "DB.compactionError")
+	if fd == nil {
+		fatal("function DB.compactionError not found")
+	}
+	f := map[string]bool{}
+	shape := true
+	labels := map[string]*ast.SelectStmt{}
+	var order []string
+	for i, st := range fd.Body.List {
+		if i == 0 {
+			if stmtText(st) != "var err error" {
+				shape = false
+			}
+			continue
+		}
+		ls, ok := st.(*ast.LabeledStmt)
+		if !ok {
+			shape = false
+			continue
+		}
+		sel := forSelect(ls.Stmt)
+		if sel == nil {
+			shape = false
+			continue
+		}
+		labels[ls.Label.Name] = sel
+		order = append(order, ls.Label.Name)
+	}
+	if strings.Join(order, ",") != "noerr,haserr,hasperr" {
+		shape = false
+	}
+	// the switch after `err = <-db.compErrSetC`: which condition leads where
+	sw := func(label string, body []ast.Stmt) {
+		if len(body) != 1 {
+			shape = false
+			return
+		}
+		s, ok := body[0].(*ast.SwitchStmt)
+		if !ok || s.Tag != nil || s.Init != nil {
+			shape = false
+			return
+		}
+		for _, c := range s.Body.List {
+			cc := c.(*ast.CaseClause)
+			tgt := gotoTarget(cc.Body)
+			if cc.List == nil { // default
+				switch {
+				case label == "noerr" && tgt == "haserr":
+					f["noerrOther"] = true
+				case label == "haserr" && tgt == "":
+				default:
+					shape = false
+				}
+				continue
+			}
+			for _, e := range cc.List {
+				switch stmtText(e) {
+				case "err == nil":
+					if label == "noerr" && tgt == "" {
+						f["noerrNil"] = true
+					} else if label == "haserr" && tgt == "noerr" {
+						f["haserrNil"] = true
+					} else {
+						shape = false
+					}
+				case "err == ErrReadOnly":
+					if tgt == "hasperr" {
+						f[label+"RO"] = true
+					} else {
+						shape = false
+					}
+				case "errors.IsCorrupted(err)":
+					if tgt == "hasperr" {
+						f[label+"Corrupt"] = true
+					} else {
+						shape = false
+					}
+				default:
+					shape = false
+				}
+			}
+		}
+	}
+	for label, sel := range labels {
+		for _, c := range sel.Body.List {
+			cc := c.(*ast.CommClause)
+			if cc.Comm == nil { // a `default:` would turn the loop into a busy loop: not modelled
+				shape = false
+				continue
+			}
+			switch stmtText(cc.Comm) {
+			case "err = <-db.compErrSetC":
+				if label == "hasperr" {
+					shape = false
+					continue
+				}
+				f[label+"Recv"] = true
+				sw(label, cc.Body)
+			case "db.compErrC <- err":
+				if label == "noerr" || len(cc.Body) != 0 {
+					shape = false
+					continue
+				}
+				f[label+"Err"] = true
+			case "db.compPerErrC <- err":
+				if label != "hasperr" || len(cc.Body) != 0 {
+					shape = false
+					continue
+				}
+				f["hasperrPerErr"] = true
+			case "db.writeLockC <- struct{}{}":
+				if label != "hasperr" || len(cc.Body) != 1 || stmtText(cc.Body[0]) != "db.compWriteLocking = true" {
+					shape = false
+					continue
+				}
+				f["hasperrLock"] = true
+			case "<-db.closeC":
+				n := len(cc.Body)
+				if n == 0 || stmtText(cc.Body[n-1]) != "return" {
+					shape = false
+					continue
+				}
+				f[label+"Close"] = true
+				switch {
+				case n == 1:
+				case n == 2 && label == "hasperr" && stmtText(cc.Body[0]) == "if db.compWriteLocking { <-db.writeLockC }":
+					f["hasperrGivesBack"] = true
+				default:
+					shape = false
+				}
+			default:
+				shape = false
+			}
+		}
+	}
+	f["shape"] = shape
+	return f
+}
+
+// commOf finds, among the comm clauses of sel, the one whose communication has the text comm.
+func commOf(sel *ast.SelectStmt, comm string) *ast.CommClause {
+	for _, c := range sel.Body.List {
+		cc := c.(*ast.CommClause)
+		if cc.Comm != nil && stmtText(cc.Comm) == comm {
+			return cc
+		}
+	}
+	return nil
+}
+
+func bodyTexts(body []ast.Stmt) string {
+	var parts []string
+	for _, st := range body {
+		if es, ok := st.(*ast.ExprStmt); ok {
+			if ce, ok := es.X.(*ast.CallExpr); ok {
+				fn := exprString(ce.Fun)
+				if fn == "verifAt" || fn == "db.logf" || fn == "db.log" {
+					continue // hooks and logging do not block
+				}
+			}
+		}
+		parts = append(parts, stmtText(st))
+	}
+	return strings.Join(parts, "; ")
+}
+
+// callersOfCompErr: SetReadOnly and compactionTransact talk to the machine as Model/Locks.lean says.
+//   SetReadOnly: first select {writeLockC<- : compWriteLocking = true | <-compPerErrC: return err | <-closeC: return ErrClosed},
+//   second select {compErrSetC <- ErrReadOnly: store compReadOnly | perr := <-compPerErrC: return perr | <-closeC: … return ErrClosed};
+//   compactionTransact: select {compErrSetC <- err | perr := <-compPerErrC: if err != nil { exit } | <-closeC: exit}, then
+//   `if err == nil { return }` and `if errors.IsCorrupted(err) { exit }`.
+func callersOfCompErr() bool {
+	ok := true
+	var sels []*ast.SelectStmt
+	fd := findFunc("leveldb/db_write.go", "DB.SetReadOnly")
+	if fd == nil {
+		fatal("function DB.SetReadOnly not found")
+	}
+	for _, st := range fd.Body.List {
+		if s, isSel := st.(*ast.SelectStmt); isSel {
+			sels = append(sels, s)
+		}
+	}
+	if len(sels) != 2 || len(sels[0].Body.List) != 3 || len(sels[1].Body.List) != 3 {
+		return false
+	}
+	chk := func(sel *ast.SelectStmt, comm, body string) {
+		cc := commOf(sel, comm)
+		if cc == nil || bodyTexts(cc.Body) != body {
+			ok = false
+		}
+	}
+	chk(sels[0], "db.writeLockC <- struct{}{}", "db.compWriteLocking = true")
+	chk(sels[0], "err := <-db.compPerErrC", "return err")
+	chk(sels[0], "<-db.closeC", "return ErrClosed")
+	chk(sels[1], "db.compErrSetC <- ErrReadOnly", "atomic.StoreUint32(&db.compReadOnly, 1)")
+	chk(sels[1], "perr := <-db.compPerErrC", "return perr")
+	if cc := commOf(sels[1], "<-db.closeC"); cc == nil || len(cc.Body) == 0 || stmtText(cc.Body[len(cc.Body)-1]) != "return ErrClosed" {
+		ok = false
+	}
+	// compactionTransact
+	fd = findFunc("leveldb/db_compaction.go", "DB.compactionTransact")
+	if fd == nil {
+		fatal("function DB.compactionTransact not found")
+	}
+	var loop *ast.ForStmt
+	for _, st := range fd.Body.List {
+		if fs, isFor := st.(*ast.ForStmt); isFor {
+			loop = fs
+		}
+	}
+	if loop == nil {
+		return false
+	}
+	var sel *ast.SelectStmt
+	seenNil, seenCorrupt := false, false
+	for _, st := range loop.Body.List {
+		if s, isSel := st.(*ast.SelectStmt); isSel && sel == nil {
+			sel = s
+			continue
+		}
+		if sel != nil {
+			switch t := stmtText(st); {
+			case t == "if err == nil { return }":
+				seenNil = !seenCorrupt
+			case strings.HasPrefix(t, "if errors.IsCorrupted(err) {") && strings.HasSuffix(t, "db.compactionExitTransact() }"):
+				seenCorrupt = seenNil
+			}
+		}
+	}
+	if sel == nil || len(sel.Body.List) != 3 || !seenNil || !seenCorrupt {
+		return false
+	}
+	chk(sel, "db.compErrSetC <- err", "")
+	chk(sel, "<-db.closeC", "db.compactionExitTransact()")
+	if cc := commOf(sel, "perr := <-db.compPerErrC"); cc == nil || len(cc.Body) != 1 ||
+		!strings.HasPrefix(stmtText(cc.Body[0]), "if err != nil {") || !strings.HasSuffix(stmtText(cc.Body[0]), "db.compactionExitTransact() }") {
+		ok = false
+	}
+	return ok
+}
+
 // funcText is the printed body of a function.
 func funcText(rel, fn string) string {
 	fd := findFunc(rel, fn)
@@ -766,6 +1043,36 @@ func main() {
 		"`tCompaction` consults the read-only flag set by `SetReadOnly` at the top of its loop and before executing a command")
 	o.boolean("lkSetReadOnlyReleasesOnClose", countStmts("leveldb/db_write.go", "DB.SetReadOnly", "<-db.writeLockC") >= 1,
 		"`SetReadOnly` gives the write-lock token back when it gives up because the DB is closing")
+
+	// the goroutine compactionError as a state machine (C09/C18, Model/CompErr.lean `codeM`)
+	o.b.WriteString("\n/-! The `select` cases and `switch` cases of `DB.compactionError` (read off the Go AST). -/\n\n")
+	{
+		ce := compErrFacts()
+		for _, c := range []struct{ lean, key, doc string }{
+			{"ceNoerrRecv", "noerrRecv", "`noerr:` has `case err = <-db.compErrSetC`"},
+			{"ceNoerrNil", "noerrNil", "`noerr:` `case err == nil:` stays in `noerr`"},
+			{"ceNoerrRO", "noerrRO", "`noerr:` `err == ErrReadOnly` leads to `hasperr`"},
+			{"ceNoerrCorrupt", "noerrCorrupt", "`noerr:` `errors.IsCorrupted(err)` leads to `hasperr`"},
+			{"ceNoerrOther", "noerrOther", "`noerr:` `default: goto haserr`"},
+			{"ceNoerrClose", "noerrClose", "`noerr:` has `case <-db.closeC: return`"},
+			{"ceHaserrErr", "haserrErr", "`haserr:` has `case db.compErrC <- err`"},
+			{"ceHaserrRecv", "haserrRecv", "`haserr:` has `case err = <-db.compErrSetC`"},
+			{"ceHaserrNil", "haserrNil", "`haserr:` `case err == nil: goto noerr`"},
+			{"ceHaserrRO", "haserrRO", "`haserr:` `err == ErrReadOnly` leads to `hasperr`"},
+			{"ceHaserrCorrupt", "haserrCorrupt", "`haserr:` `errors.IsCorrupted(err)` leads to `hasperr`"},
+			{"ceHaserrClose", "haserrClose", "`haserr:` has `case <-db.closeC: return`"},
+			{"ceHasperrErr", "hasperrErr", "`hasperr:` has `case db.compErrC <- err`"},
+			{"ceHasperrPerErr", "hasperrPerErr", "`hasperr:` has `case db.compPerErrC <- err`"},
+			{"ceHasperrLock", "hasperrLock", "`hasperr:` has `case db.writeLockC <- struct{}{}: db.compWriteLocking = true`"},
+			{"ceHasperrClose", "hasperrClose", "`hasperr:` has `case <-db.closeC: … return`"},
+			{"ceHasperrGivesBack", "hasperrGivesBack", "`hasperr:` the `closeC` case does `if db.compWriteLocking { <-db.writeLockC }` before it returns"},
+			{"ceShape", "shape", "`compactionError` is `var err error` and the three labelled `for { select { … } }` loops `noerr`, `haserr`, `hasperr`, with no `select` case or `switch` case besides the recognised ones"},
+		} {
+			o.boolean(c.lean, ce[c.key], c.doc)
+		}
+	}
+	o.boolean("ceCallersAsModelled", callersOfCompErr(),
+		"`SetReadOnly` (two `select`s: take the write lock and set `compWriteLocking`, then post `ErrReadOnly` and set `compReadOnly`, with `compPerErrC` / `closeC` alternatives) and `compactionTransact` (post the result on `compErrSetC`, or take `compPerErrC` and exit if the result was an error, or exit on `closeC`; return on nil, exit on corruption) talk to `compactionError` as modelled")
 
 	{
 		sharedDB := []string{"nodeData", "kvData", "findGE", "findLT", "findLast", "p.n", "p.kvSize", "p.maxHeight", "prevNode", "p.rnd"}
